@@ -220,7 +220,7 @@ def builder_part(res, work, tier, pid="C20"):
         res.violation(save_replay(work, pid + "_builder_design", {"tlc_output": r["out"][-6000:]}),
                       "TLC: Builder.tla (the transcribed graph builder) builds an arena that is not well linked or not the document")
     res.add_tlc(cfg, r)
-    for slip in ("list", "section", "firstchild", "emptyleading"):
+    for slip in ("list", "section", "firstchild", "emptyleading", "appendflat"):
         rr = tlc("MC_Builder.tla", "MC_Builder_%s.cfg" % slip, os.path.join(work, "mc_builder_" + slip), workers=2, timeout=600)
         if "is violated" not in rr["out"]:
             raise ToolError("MC_Builder_%s.cfg no longer fails: the spec lost its teeth" % slip)
@@ -301,6 +301,7 @@ def check_c17(tier):
     work = workdir(pid)
     res = Result(pid, tier, "model_checking")
     vh = build_harness()
+    iwe = build_iwe_binary()
     cfg = "Gen_Squash_quick.cfg" if tier == "quick" else "Gen_Squash_thorough.cfg"
     g = tlc("MC_Gen_Squash.tla", cfg, os.path.join(work, "gen"), workers=8, timeout=3000, heap="12g")
     res.add_tlc("gen:" + cfg, g)
@@ -316,7 +317,7 @@ def check_c17(tier):
         # a stack overflow aborts the harness process: attribute it to the case it was working on and resume
         start = 0
         for _ in range(200):
-            rc, out, _ = run([vh, "squash-replay", cases, evs[i], "--shard", "%d/%d" % (i, shards), "--from", str(start)], 3000)
+            rc, out, _ = run([vh, "squash-replay", cases, evs[i], "--shard", "%d/%d" % (i, shards), "--from", str(start), "--iwe", iwe], 3000)
             if rc == 0:
                 return
             begun, done, lines = -1, -1, []
